@@ -10,6 +10,7 @@ MUTANTS = [
      "        if k.startswith('__'):\n            continue"),
     ('c19-meta-exclude-not-applied-on-load-value', 'C19', U, "if not k.startswith('__') and k not in META_EXCLUDE}", "if not k.startswith('__')}"),
     ('c19-meta-exclude-without-success-channels', 'C19', U, "META_EXCLUDE.add('success_channels')\n", ""),
+    ('c19-meta-exclude-misses-one-attr', 'C19', U, "META_EXCLUDE.add('success_channels')\n", "META_EXCLUDE.add('success_channels')\nMETA_EXCLUDE.discard('waitingHandlers')\n"),
     # --- X: firewall result ignored ----------------------------------------------------------------
     ('c19-send-firewall-ignored', 'C19', P, "if self.__send_event_firewall and not self.__send_event_firewall(event, self.__sock):",
      "if self.__send_event_firewall and not self.__send_event_firewall(event, self.__sock) and False:"),
@@ -23,6 +24,8 @@ MUTANTS = [
     ('c19-id-counter-not-incremented', 'C19', P, "            self.__nid += 1\n", "            pass\n"),
     ('c19-dump-event-id-constant', 'C19', U, "        'id': id,\n        'name': e.name,", "        'id': 0,\n        'name': e.name,"),
     ('c19-result-sent-with-wrong-id', 'C19', P, "        value.node_call_id = id\n", "        value.node_call_id = id + 1\n"),
+    ('c19-inflight-table-keyed-constant', 'C19', P, "                self.__events[id] = event\n                while not hasattr(self.__events[id], 'remote_finish'):",
+     "                self.__events[id] = self.__events.get(0, event)\n                while not hasattr(self.__events[id], 'remote_finish'):"),
     # --- buffer handling / exactly once ------------------------------------------------------------------
     ('c19-buffer-not-cleared', 'C19', P, "        packets = self.__buffer.split(DELIMITER)\n        self.__buffer = b''\n",
      "        packets = self.__buffer.split(DELIMITER)\n"),
@@ -37,6 +40,7 @@ MUTANTS = [
     # --- serialisation -------------------------------------------------------------------------------------
     ('c19-dump-event-drops-kwargs', 'C19', U, "        'kwargs': e.kwargs,", "        'kwargs': {},"),
     ('c19-dump-event-drops-channels', 'C19', U, "        'channels': e.channels,", "        'channels': (),"),
+    ('c19-load-event-success-flag-lost', 'C19', U, "    e.success = bool(data['success'])", "    e.success = False"),
     ('c19-load-event-failure-from-success', 'C19', U, "    e.failure = bool(data['failure'])", "    e.failure = bool(data['success'])"),
     ('c19-dump-event-notify-from-success', 'C19', U, "        'notify': e.notify,", "        'notify': e.success,"),
     ('c19-load-event-channels-lost', 'C19', U, "    e.channels = tuple(data['channels'])", "    e.channels = ()"),
